@@ -1221,6 +1221,13 @@ impl<'a, E: ColumnValueEncoder> GenericColumnWriter<'a, E> {
             {
                 true
             }
+            // Decimals are compared as signed numbers, a truncated byte string is not a bound
+            Type::BYTE_ARRAY
+                if matches!(self.descr.logical_type_ref(), Some(&LogicalType::Decimal { .. }))
+                    || self.descr.converted_type() == ConvertedType::DECIMAL =>
+            {
+                false
+            }
             Type::BYTE_ARRAY => true,
             // Truncation only applies for fba/binary physical types
             _ => false,
@@ -1297,7 +1304,9 @@ impl<'a, E: ColumnValueEncoder> GenericColumnWriter<'a, E> {
     fn truncate_statistics(&self, statistics: Statistics) -> Statistics {
         let backwards_compatible_min_max = self.descr.sort_order().is_signed();
         match statistics {
-            Statistics::ByteArray(stats) if stats._internal_has_min_max_set() => {
+            Statistics::ByteArray(stats)
+                if (stats._internal_has_min_max_set() && self.can_truncate_value()) =>
+            {
                 let (min, did_truncate_min) = self.truncate_min_value(
                     self.props.statistics_truncate_length(),
                     stats.min_bytes_opt().unwrap(),
